@@ -71,6 +71,52 @@ def main(run):
             else:
                 distinct.add(("pinhole", fname, srel))
                 run.sample(dict(kind="pinhole", family=fname, sigma_rel=srel, h=hs, errors=errs))
+    # ------------------------------------------------------------------ pinhole next to the beam stop
+    # data points with q < 2.5 sigma: the window [q-2.5 sigma, q+3 sigma] reaches negative q, the
+    # documented integral is over I(|q'|) on the signed window; q_calc (default and user) holds negative points
+    stats["pinhole_lowq"] = 0
+    for fname, f in FAMILIES.items():
+        for srel in ([0.5, 1.2] if not thorough else [0.41, 0.5, 0.8, 1.2, 2.0]):
+            q = np.sort(np.array([rng.uniform(0.004, 0.03) for _ in range(nq)]))
+            s = srel * q
+            ex = []
+            for qi, si in zip(q, s):
+                phi = lambda x: math.exp(-0.5 * ((x - qi) / si) ** 2)
+                n = quad(phi, qi - 2.5 * si, qi + 3.0 * si, epsabs=0, epsrel=1e-13)[0]
+                ex.append(quad(lambda x: float(f(abs(x))) * phi(x), qi - 2.5 * si, qi + 3.0 * si, points=[0.0], epsabs=0, epsrel=1e-12)[0] / n)
+            ex = np.array(ex)
+            L, M = lipschitz(f, 0.0, (q + 3.1 * s).max())
+            gap = 0.04 * q.min()          # |q_calc| < 0.02 min(q) is dropped: two cells of that size around zero
+            errs, hs = [], []
+            for div in (2, 8, 32):
+                h = s.min() / div
+                qc = np.arange((q - 2.6 * s).min(), (q + 3.1 * s).max() + h, h)
+                r = Pinhole1D(q, s, q_calc=qc)
+                errs.append(float(np.abs(r.apply(f(r.q_calc)) - ex).max())); hs.append(h)
+                evals += 1
+            rdef = Pinhole1D(q, s)            # default grid: steps of the data spacing
+            hdef = float(np.max(np.diff(np.sort(np.concatenate([-rdef.q_calc, rdef.q_calc]))))) if len(rdef.q_calc) > 1 else 0.0
+            edef = float(np.abs(rdef.apply(f(rdef.q_calc)) - ex).max())
+            evals += 1
+            stats["pinhole_lowq"] += 1
+            desc = dict(kind="pinhole-lowq", family=fname, q=list(map(float, q)), sigma=list(map(float, s)), h=hs, errors=errs,
+                        default_grid_error=edef, exact=list(map(float, ex)))
+            bad = None
+            for h, e in zip(hs, errs):
+                bound = 2.0 * (L * (h + gap) + M * (h + gap) / s.min())
+                if e > bound + 1e-13:
+                    bad = "error %.3g at h=%.3g exceeds the first-order bound %.3g" % (e, h, bound)
+            floor = 0.5 * (L * gap + M * gap / s.min())
+            for a, b in zip(errs[:-1], errs[1:]):
+                if b > 0.75 * a + 1e-12 and b > floor:
+                    bad = "error does not decrease in proportion to the grid spacing: %s at h=%s" % (errs, hs)
+            if errs[-1] > floor + 2.0 * (L * hs[-1] + M * hs[-1] / s.min()):
+                bad = "error %.3g on the finest grid (h=%.3g) stays above the first-order bound" % (errs[-1], hs[-1])
+            if bad:
+                run.add(Finding("C04:pinhole-lowq:%s" % fname, "pinhole smearing of %s at q < 2.5 sigma (sigma=%.2g q): %s" % (fname, srel, bad), desc))
+            else:
+                distinct.add(("pinhole-lowq", fname, srel))
+                run.sample(dict(kind="pinhole-lowq", family=fname, sigma_rel=srel, h=hs, errors=errs))
     # ------------------------------------------------------------------ slit
     for fname, f in FAMILIES.items():
         for L_, W_ in ([(0.02, 0.0), (0.2, 0.0), (0.0, 0.01), (0.05, 0.01)] if not thorough else
